@@ -192,3 +192,35 @@ package controller
 //@     invariant forall(n, string, has(newBc.Snapshots, n) ==> has(cache, n) && ShowsSnapshot(newBc.Snapshots[n], n))
 //@     invariant forall(i, 0, len(newContext), newContext[i].Snapshots != newBc.Snapshots && newContext[i].Snapshots != cache && entries(newContext[i].Snapshots) == atloop(entries(newContext[i].Snapshots)))
 //@     invariant forall(n, string, atloop(has(cache, n)) ==> has(cache, n) && cache[n] == atloop(cache[n]) && snapOf[n] == atloop(snapOf[n]))
+
+// C02: the snapshot of a binding name is the current snapshot of the monitor of the first binding
+// with that name (nil when there is none). [own-binding] states what the property needs: it is
+// the snapshot of EVERY binding with that name - which cannot hold when two bindings share a name.
+//@ specfn hasMon(id string) bool
+//@ specfn monOf(id string) kubeeventsmanager.Monitor
+//@ specfn monSnap(m kubeeventsmanager.Monitor) []kemtypes.ObjectAndFilterResult
+//@ package github.com/flant/shell-operator/pkg/kube_events_manager
+//@ trusted func KubeEventsManager.HasMonitor
+//@   modifies nothing
+//@   ensures result == controller.hasMon(monitorID)
+//@ trusted func KubeEventsManager.GetMonitor
+//@   modifies nothing
+//@   ensures result == controller.monOf(monitorID)
+//@ trusted func Monitor.Snapshot
+//@   modifies nothing
+//@   ensures result == controller.monSnap(recv)
+//@ package github.com/flant/shell-operator/pkg/hook/controller
+
+//@ pred SnapMatch(b htypes.OnKubernetesEventConfig, name string) := b.BindingName == name && hasMon(b.Monitor.Metadata.MonitorId)
+
+//@ func (*kubernetesBindingsController).SnapshotsFor
+//@   prop C02
+//@   requires forall(j, 0, len(c.KubernetesBindings), c.KubernetesBindings[j].Monitor != nil)
+//@   modifies nothing
+//@   ensures [none]        (forall(j, 0, len(c.KubernetesBindings), !SnapMatch(c.KubernetesBindings[j], bindingName))) ==> result == nil
+//@   ensures [first-match] forall(j, 0, len(c.KubernetesBindings), SnapMatch(c.KubernetesBindings[j], bindingName) && (forall(k, 0, j, !SnapMatch(c.KubernetesBindings[k], bindingName)))
+//@        ==> result == monSnap(monOf(c.KubernetesBindings[j].Monitor.Metadata.MonitorId)))
+//@   ensures [own-binding] forall(j, 0, len(c.KubernetesBindings), SnapMatch(c.KubernetesBindings[j], bindingName) ==> result == monSnap(monOf(c.KubernetesBindings[j].Monitor.Metadata.MonitorId)))
+//@   loop 1
+//@     invariant 0 <= iter() && iter() <= len(c.KubernetesBindings)
+//@     invariant forall(j, 0, iter(), !SnapMatch(c.KubernetesBindings[j], bindingName))
